@@ -116,7 +116,7 @@ def run(tier):
         agg = judge_mutants(chk, res, seed, sc.path)
         for i in range(agg["distinct_inputs"]):
             pass
-        chk.distinct.update(("m", i) for i in range(agg["distinct_inputs"]))
+        chk.distinct_extra += agg["distinct_inputs"]
         # samples of real mutants
         for i in (0, 1, 2):
             p = os.path.join(sc.path, "sample-%d.ddp" % i)
